@@ -798,6 +798,11 @@ func (state *RuntimeState) getUsernameIfKeymasterSigned(VerifiedChains [][]*x509
 		if len(chain) < 2 {
 			continue
 		}
+		// Certificates issued by the role requesting CA are IP restricted:
+		// they authenticate only through getUsernameIfIPRestricted
+		if bytes.Equal(chain[1].Raw, state.selfRoleCaCertDer) {
+			continue
+		}
 		username := chain[0].Subject.CommonName
 		//keymaster certs as signed directly
 		certSignerPKFingerprint, err := getKeyFingerprint(chain[1].PublicKey)
